@@ -825,6 +825,16 @@ package catalog
 //@   unclaimed #requires@Update see above
 //@   unclaimed #requires@String see AddHTTPMethod
 
+// ---------------------------------------------------------------- BaseUrl (C11: second singleton child, unknown server; C17: stored as written)
+//@ func (*Catalog).AddBaseURL
+//@   tag C11 C17 C01
+//@   requires c != nil && c.Servers != nil && RepInvServers(c.Servers) && c.Servers.mx == 0
+//@   requires forall k string :: has(c.Servers.data, k) ==> c.Servers.data[k] != nil
+//@   ensures [C11] !old(has(c.Servers.data, serverName)) ==> !isnil(ret) && unchanged()
+//@   ensures [C11] old(has(c.Servers.data, serverName)) && old(c.Servers.data[serverName].BaseUrl) != "" ==> !isnil(ret) && unchanged()
+//@   ensures [C17] isnil(ret) ==> has(c.Servers.data, serverName) && c.Servers.data[serverName].BaseUrl == path
+//@   ensures forall k string :: has(c.Servers.data, k) == old(has(c.Servers.data, k))
+
 // ---------------------------------------------------------------- second Query / request Headers / response Headers (C11 "a second singleton child")
 // hiKnown(c, d): the directive's interaction is registered and is an HTTP interaction; hiOf(c, d): that interaction.
 //@ pred hiKnown(c *Catalog, d directive.Directive) = has(c.Interactions.data, box(HTTPInteractionID, httpIdOf(d))) && typeis(c.Interactions.data[box(HTTPInteractionID, httpIdOf(d))], *HTTPInteraction)
